@@ -24,43 +24,6 @@ Definition is_decl_step (root : fpath) (s : stepk) : bool :=
 Definition c04_upgrade_declaration_fault (m : M unit) (c : cfg) (t : tree) (k : nat) : bool :=
   match fired_of m t k with Some s => is_decl_step (c_mo c) s | None => false end.
 
-(** the staged object root of a never-committed object whose declaration file is not exactly the one
-    its (complete) staged inventory requires *)
-Definition staged_decl_mismatch (c : cfg) (t : tree) : bool :=
-  match read_file t (c_so c ++ [c_inv c]) with
-  | Some (CInv _ [_] spec _ _) =>
-      negb (match read_file t (c_so c ++ [spec]) with Some (CDecl s) => seg_eqb s spec | _ => false end
-            && forallb (fun p => path_eqb p (c_so c ++ [spec])) (find_decls t (c_so c)))
-  | _ => false
-  end.
-
-(** upgrade of an object that was never committed (upgrade_object repo.rs:994-1001 with
-    stage_object_declaration fs.rs:696-714): the staged inventory is rewritten with the new type
-    first; a fault after that and before the declaration rewrite in the staged object root is complete
-    returns an error with the main repository untouched, but a retried upgrade is refused
-    ("greater than or equal") and a retried commit installs the object with the old (or two)
-    declarations (E038 / E003) *)
-Definition c04_staged_declaration_fault (m : M unit) (c : cfg) (t : tree) (k : nat) : bool :=
-  staged_decl_mismatch c (run_tree m t (Fault k)) && negb (staged_decl_mismatch c t).
-
-(** an empty directory in (or as) the content directory of the staged head version *)
-Definition staged_empty_dir (c : cfg) (t : tree) : bool :=
-  match read_file t (c_so c ++ [c_inv c]) with
-  | Some (CInv _ vs _ _ _) =>
-      existsb (fun e => under (c_so c ++ [last vs []; c_cdir c]) (fst e)
-                        && match snd e with Dir => negb (has_children t (fst e)) | File _ => false end) t
-  | _ => false
-  end.
-
-(** clean_dirs_up inside rm_staged_files / rm_orphaned_files (fs.rs:794-834, util.rs:14-23): a failing
-    rmdir of a directory that the removal of a duplicate or orphan emptied leaves that empty directory
-    in the staged content; nothing removes it later (rm_orphaned_files only looks at files), so a
-    retried commit installs a version with an empty directory (E024) *)
-Definition c04_cleanup_rmdir_fault (m : M unit) (c : cfg) (t : tree) (k : nat) : bool :=
-  staged_empty_dir c (run_tree m t (Fault k)) && negb (staged_empty_dir c t).
-
-(** 0 none, 1 upgrade-declaration, 2 staged-declaration, 3 cleanup-rmdir *)
+(** 0 none, 1 upgrade-declaration *)
 Definition known_class_of (m : M unit) (c : cfg) (t : tree) (k : nat) : N :=
-  if c04_upgrade_declaration_fault m c t k then 1%N
-  else if c04_staged_declaration_fault m c t k then 2%N
-  else if c04_cleanup_rmdir_fault m c t k then 3%N else 0%N.
+  if c04_upgrade_declaration_fault m c t k then 1%N else 0%N.
